@@ -10,7 +10,7 @@ INCLUDES  := -Ishim -I$(REPO) -I$(REPO)/bluetoe/sm/include -I$(REPO)/bluetoe/uti
              -I$(REPO)/bluetoe/bindings/nordic/include
 LDFLAGS   := $(SAN) -pthread
 
-HARNESSES := wl_sim nq_sim ring_sim irq_sim pdu_sim sdu_sim gatt_sim
+HARNESSES := wl_sim nq_sim ring_sim irq_sim pdu_sim sdu_sim gatt_sim stack_sim
 
 REPO_OBJS := $(BUILD)/repo/address.o $(BUILD)/repo/channel_map.o $(BUILD)/repo/delta_time.o $(BUILD)/repo/connection_details.o
 
@@ -27,6 +27,8 @@ $(BUILD)/repo/address.o: $(REPO)/bluetoe/utility/address.cpp
 $(BUILD)/repo/%.o: $(REPO)/bluetoe/link_layer/%.cpp
 	@mkdir -p $(dir $@)
 	$(CXX) $(CXXFLAGS) $(INCLUDES) -MMD -c $< -o $@
+
+$(BUILD)/stack_sim.o: harness/stack_world.hpp harness/sim_radio.hpp
 
 $(BUILD)/%.o: harness/%.cpp sim/sim.hpp
 	@mkdir -p $(dir $@)
